@@ -8,7 +8,8 @@ Local Notation length := List.length.
 Lemma enc_tok_nonempty b : (1 <= length (enc_tok b))%nat.
 Proof.
   destruct b; cbn [enc_tok]; unfold enc_uint, enc_int, enc_idx; try (cbn; lia).
-  destruct (uint_length u); cbn; lia.
+  - destruct (uint_length u); cbn; lia.
+  - destruct (is_undef t); cbn; lia.
 Qed.
 
 Lemma flat_map_map {A B C} (f : A -> B) (g : B -> list C) l : flat_map g (map f l) = flat_map (fun x => g (f x)) l.
